@@ -129,6 +129,7 @@ def roundtrip_records(ck, m, record):
 
 
 import re
+_CHARREF = re.compile(r'&(#[0-9]+|#[xX][0-9a-fA-F]+|[A-Za-z][A-Za-z0-9]*);')
 _TITLE_AFTER_DEF = re.compile(r'^[> ]*\[[^\]\n]+\]: [^\n]*\n[> ]*[("\']', re.M)
 
 
@@ -140,7 +141,7 @@ def reflow_documents(ck, m):
     for d in dedupe(docs):
         if set(d['tags']) & {'setext-in-quote', 'lazy-after-indented-quote-content', 'table-on-marker-line', 'item-begins-with-blank-line'}:
             continue          # documents of a recorded finding (parser or Markdown renderer) do not mean what they say
-        if _TITLE_AFTER_DEF.search(d['src']):
+        if _CHARREF.search(d['src']) or _TITLE_AFTER_DEF.search(d['src']):
             continue          # a first word that reads as a link title once it stands alone on the line after a definition: the
                               # property sets aside words that mean something at the start of a line
         out.append({'src': d['src'], 'words': [], 'hard': [], 'W': -1})
